@@ -68,7 +68,12 @@ def _unquote_impl(string, only_printable=False, unsafe=None):
                 append(b)
                 append(item[2:])
         else:
-            append(b"%")
+            # NOTE: when "%" itself must stay escaped, a "%" that does not start
+            # a valid escape is literal text and is spelled "%25" like any other
+            if unsafe is not None and b"%" in unsafe:
+                append(b"%25")
+            else:
+                append(b"%")
             append(item)
 
     return res
